@@ -20,7 +20,7 @@ import ast
 import itertools
 
 from ..core import AnalysisError, assignments, call_name, doc_sorted, dotted, names_in, provenance, short, walk_no_nested
-from ..util import calls_named, has_call, kwarg, norm
+from ..util import calls_named, has_call, kwarg, norm, stored_paths
 from .c08 import fstring_parts
 
 ATOM = "molli.chem.atom"
@@ -795,11 +795,37 @@ def r5_ensembles(chk):
     ienv = Env(init.node)
     src_p = init.params()[1]
     # in the branch taken for a list of structures: the tables have len(list) rows, coordinates and charges are taken in list order
+    from ..canon import conjuncts
+    from ..cfg import CFG
+
+    def conds_at(s_):
+        """path conditions with a named test (`from_structures = isinstance(..) and ..`) spelled out"""
+        out = []
+        for c_ in path_conditions(init.node, s_):
+            v_ = ienv.single(c_.id) if isinstance(c_, ast.Name) else None
+            out.extend(conjuncts(v_) if v_ is not None else [c_])
+        return [norm(x) for x in out]
+
+    allocs = [s_ for s_ in walk_no_nested(init.node) if isinstance(s_, ast.Assign) and norm(s_.targets[0]) == "self._coords" and isinstance(s_.value, ast.Call)
+              and (call_name(s_.value) or "").endswith("full") and s_.value.args and isinstance(s_.value.args[0], ast.Tuple)]
     rows = []
-    for s_ in walk_no_nested(init.node):
-        if isinstance(s_, ast.Assign) and norm(s_.targets[0]) == "self._coords" and isinstance(s_.value, ast.Call) and (call_name(s_.value) or "").endswith("full") and s_.value.args \
-                and isinstance(s_.value.args[0], ast.Tuple) and any(norm(c_) == f"isinstance({src_p}, list)" for c_ in path_conditions(init.node, s_)):
+    # (a) allocated inside the list branch with len(list) rows
+    for s_ in allocs:
+        if f"isinstance({src_p}, list)" in conds_at(s_):
             rows.append(norm(ienv.expand(s_.value.args[0].elts[0], at=s_)))
+    if not rows:
+        # (b) the row count is named in the list branch (`n = len(list)`) and the allocation that follows uses that name
+        cfg_i = CFG(init.node)
+        for d_ in walk_no_nested(init.node):
+            if isinstance(d_, ast.Assign) and isinstance(d_.targets[0], ast.Name) and norm(d_.value) == f"len({src_p})" and f"isinstance({src_p}, list)" in conds_at(d_):
+                nm_ = d_.targets[0].id
+                start = [n_.id for n_ in cfg_i.nodes if n_.kind == "stmt" and n_.ast is d_]
+                redefs = {n_.id for n_ in cfg_i.nodes if n_.kind == "stmt" and n_.ast is not d_ and isinstance(n_.ast, (ast.Assign, ast.AugAssign)) and nm_ in stored_paths(n_.ast)}
+                for s_ in allocs:
+                    goal = {n_.id for n_ in cfg_i.nodes if n_.kind == "stmt" and n_.ast is s_}
+                    if start and goal and cfg_i.path(cfg_i.succs(start[0]), goal, avoid=redefs) is not None and norm(s_.value.args[0].elts[0]) == nm_:
+                        rows.append(f"len({src_p})")
+                        break
     lc_ok = {}
     for s_ in walk_no_nested(init.node):
         if isinstance(s_, ast.Assign) and norm(s_.targets[0]) in ("self.coords", "self.atomic_charges") and isinstance(s_.value, ast.ListComp) and len(s_.value.generators) == 1:
